@@ -326,6 +326,8 @@ type Case struct {
 type FieldDecl struct {
 	Name, Type string
 	Pair       FieldPair
+	SrcName    string // the same-named source member ("" if none)
+	SrcGetter  bool
 }
 
 // Options steer the generator towards what a property needs.
@@ -345,6 +347,7 @@ type Options struct {
 	WellFormed      bool // only notations that are valid and name functions of an acceptable shape
 	ErrorBias       bool // prefer error results, error-returning converters and getters (C07)
 	Embedding       float64 // probability that a converter interface embeds another interface
+	HookReuse       float64 // probability that a method names a hook declared for an earlier method's (different) types
 }
 
 // DefaultOptions is the general-purpose mix.
@@ -359,6 +362,7 @@ type genState struct {
 	types  strings.Builder // generated local declarations (types.go tail)
 	nTypes int
 	nFuncs int
+	hookNames []string // well-shaped hooks declared so far
 }
 
 func (g *genState) feat(f string) { g.c.Features[f]++ }
@@ -429,7 +433,11 @@ func (g *genState) genStructPair(imported bool) (src, dst string, fields []Field
 		}
 		g.feat("class-" + p.Class)
 		dfields = append(dfields, fmt.Sprintf("\t%s %s", dname, p.Dst))
-		fields = append(fields, FieldDecl{Name: dname, Type: p.Dst, Pair: p})
+		fd := FieldDecl{Name: dname, Type: p.Dst, Pair: p}
+		if p.SrcKind != "none" {
+			fd.SrcName, fd.SrcGetter = sname, p.SrcKind != "field"
+		}
+		fields = append(fields, fd)
 		if usedSrc[strings.ToLower(sname)] && p.SrcKind != "none" {
 			// a second member with a name equal under folding: keep it only sometimes (first-candidate rule)
 			if g.rng.Intn(3) != 0 {
@@ -591,6 +599,9 @@ func (g *genState) genMethod(idx int) Method {
 				convs = []string{"localConvErr", "localConvErr2", "localConvErr3", "localConv"}
 			}
 			srcs := []string{"SpareInt", "SpareStr", "Calc()", path, "NestV.A", "Nest.B"}
+			if g.opt.ErrorBias {
+				srcs = []string{"SpareInt", "Nest.A", "NestV.A", "Calc()"}
+			}
 			m.Notations = append(m.Notations, ":conv "+g.pick(convs)+" "+g.pick(srcs)+" "+path)
 			m.Features = append(m.Features, "conv")
 		case 4:
@@ -644,11 +655,18 @@ func (g *genState) genMethod(idx int) Method {
 			m.RetErr = true
 		}
 	}
-	if g.rng.Float64() < g.opt.Hooks {
-		m.Notations = append(m.Notations, g.hook(&m, "preprocess"))
-	}
-	if g.rng.Float64() < g.opt.Hooks {
-		m.Notations = append(m.Notations, g.hook(&m, "postprocess"))
+	if len(g.hookNames) > 0 && g.rng.Float64() < g.opt.HookReuse {
+		// a hook that fits an earlier method's operand types, not this one's: must be rejected
+		m.Notations = append(m.Notations, ":postprocess "+g.hookNames[g.rng.Intn(len(g.hookNames))])
+		m.Features = append(m.Features, "misfit-hook-reused")
+		g.c.Features["misfit-hook-reused"]++
+	} else {
+		if g.rng.Float64() < g.opt.Hooks {
+			m.Notations = append(m.Notations, g.hook(&m, "preprocess"))
+		}
+		if g.rng.Float64() < g.opt.Hooks {
+			m.Notations = append(m.Notations, g.hook(&m, "postprocess"))
+		}
 	}
 	if g.rng.Intn(4) == 0 {
 		g.rng.Shuffle(len(m.Notations), func(i, j int) { m.Notations[i], m.Notations[j] = m.Notations[j], m.Notations[i] })
@@ -728,6 +746,9 @@ func (g *genState) hook(m *Method, kind string) string {
 		g.feat("hook-bad-result")
 	}
 	g.feat("hook-" + kind)
+	if shape >= 4 && res != " int" {
+		g.hookNames = append(g.hookNames, name)
+	}
 	// instrumented body: report the operands to the driver, then fail on command
 	var pnames []string
 	for _, p := range params {
@@ -1199,11 +1220,23 @@ func GenerateLayout(seed int64, index int, compound bool) *Case {
 	}
 	nIntf := 1 + pick(3)
 	names := []string{"Convergen", "Backend", "Loader"}
+	if nIntf > 1 && pick(2) == 0 {
+		// the file order need not be the (sorted) processing order
+		names[0], names[1] = names[1], names[0]
+		feat("interfaces-not-in-name-order")
+	}
 	mi := 0
 	for i := 0; i < nIntf; i++ {
-		it := Interface{Name: names[i], Marked: i > 0}
-		sb.WriteString("\n")
+		it := Interface{Name: names[i], Marked: names[i] != "Convergen"}
+		adjacent := i > 0 && pick(3) == 0
+		if !adjacent {
+			sb.WriteString("\n")
+		}
 		docStyle := pick(4)
+		if adjacent && !it.Marked {
+			docStyle = 3 // doc-less, directly after the previous declaration's closing brace
+			feat("docless-interface-adjacent-to-previous")
+		}
 		if it.Marked && docStyle == 3 {
 			docStyle = 0
 		}
@@ -1251,6 +1284,10 @@ func GenerateLayout(seed int64, index int, compound bool) *Case {
 				switch pick(6) {
 				case 0:
 					m.DocLines = []string{fmt.Sprintf("M%d is documented.", mi), "second line."}
+					if pick(2) == 0 {
+						m.DocLines = append(m.DocLines, "Price is quoted in $USD, e.g. $5 per ${unit} and $1.")
+						feat("dollar-in-method-doc")
+					}
 				case 1:
 					m.DocLines = []string{fmt.Sprintf("M%d with notation.", mi)}
 					m.Notations = []string{":conv conv A"}
